@@ -63,7 +63,8 @@ fn main() {
 
     let cases: Vec<u64> = match only {
         Some(k) => vec![k],
-        None => (start..total).filter(|k| k % nshards == shard).collect(),
+        // rotate so that case families selected by `idx % n` are spread over all shards
+        None => (start..total).filter(|k| (k + k / nshards) % nshards == shard).collect(),
     };
     for idx in cases {
         watch::take_panics();
